@@ -15,6 +15,7 @@ import (
 	"github.com/gorilla/mux"
 	"github.com/trustbloc/sidetree-core-go/pkg/api/operation"
 	"github.com/trustbloc/sidetree-core-go/pkg/api/protocol"
+	"github.com/trustbloc/sidetree-core-go/pkg/canonicalizer"
 
 	"github.com/trustbloc/sidetree-core-go/pkg/document"
 	"github.com/trustbloc/sidetree-core-go/pkg/mocks"
@@ -106,7 +107,7 @@ var aWeights = map[string]map[string]int{
 	"C04": {"honest": 8, "deactivate": 4, "recover": 4, "fork": 3, "stale": 4, "replay": 3, "unauth": 2, "dupcreate": 2},
 	"C05": {"honest": 4, "window": 12, "fork": 1},
 	"C06": {"honest": 8, "fork": 3, "baddelta": 2, "unauth": 2, "replay": 2, "dupcreate": 1, "window": 2, "unpub": 2},
-	"C12": {"honest": 6, "loop": 10, "fork": 2, "replay": 2},
+	"C12": {"unpub": 2, "honest": 6, "loop": 10, "fork": 2, "replay": 2},
 }
 
 func runWorldA(rc *RunCtx, prop string) *RunResult {
@@ -548,6 +549,11 @@ func (w *aWorld) event() {
 	// an outstanding unpublished operation restricts what may happen next (see DESIGN §6 C02)
 	if w.unpubOp != nil {
 		switch {
+		case w.prop == "C12" && w.unpubOp.M.Type != refmodel.Create && T.Draw(2, "unpub.loop") == 0:
+			// a published operation that commits back to a commitment consumed earlier in the chain - possibly by the pending
+			// unpublished operation
+			w.k.Count("probe:loop-with-unpublished-operation-in-chain")
+			w.anchorLoop(st)
 		case T.Draw(2, "unpub.resolve") == 0:
 			w.publishUnpublished()
 		case w.unpubOp.M.Type == refmodel.Create:
@@ -906,6 +912,47 @@ func (w *aWorld) anchorHonest(st *refmodel.State, party string) {
 			p.kind += "+window"
 			w.nontrivial = true
 		}
+	}
+
+	// now and then a spoiled twin of the operation reaches the ledger first, carrying the SAME next commitments: a forged
+	// copy (somebody re-signed or damaged the pending request) or, for an update, the controller's own botched first
+	// attempt (request delta not matching the signed hash) that is then repeated correctly with the keys already generated
+	if typ != operation.TypeDeactivate && p.delta == refmodel.DeltaOK && T.Draw(8, "honest.twin") == 0 {
+		twin := *p
+		legitTwin := false
+
+		if typ == operation.TypeUpdate && T.Draw(2, "honest.twin.kind") == 0 {
+			twin.delta, twin.kind, legitTwin = refmodel.DeltaMismatch, "botched-twin", true
+		} else {
+			twin.corruptSig, twin.kind = true, "forged-twin"
+		}
+
+		treq, tm := w.build(&twin)
+
+		// ... or, for a recover, somebody wraps the signed data of the (pending) recover into a DEACTIVATE request for the
+		// same DID: validly signed by the committed key, but not a deactivate and not bound to this DID by a signed suffix
+		if typ == operation.TypeRecover && T.Draw(2, "honest.twin.rewrap") == 0 {
+			genuine := *p
+			greq, _ := w.build(&genuine)
+
+			var gm map[string]interface{}
+			if json.Unmarshal(greq, &gm) == nil {
+				wrapped, err := canonicalizer.MarshalCanonical(map[string]interface{}{
+					"type": "deactivate", "didSuffix": w.suffix, "revealValue": gm["revealValue"], "signedData": gm["signedData"],
+				})
+				if err == nil {
+					treq = wrapped
+					tm = &refmodel.Op{Type: refmodel.Deactivate, Authentic: false, SuffixOK: false, Parses: true, RevealCommit: p.key.Commitment(w.hash),
+						From: p.from, Until: p.until, Label: "deactivate/recover-rewrapped"}
+					twin.kind = "recover-rewrapped-as-deactivate"
+				}
+			}
+		}
+
+		w.stampNoAdvance(tm)
+		w.k.Count("probe:spoiled-twin-" + twin.kind)
+		w.anchor(treq, tm, legitTwin, twin.kind)
+		w.advance()
 	}
 
 	req, m := w.build(p)
